@@ -370,6 +370,17 @@ func (tt *TypeTable) id(t types.Type) int {
 }
 
 func (tt *TypeTable) key(t types.Type) string {
+	t = unalias(t)
+	switch u := t.(type) {
+	case *types.Pointer:
+		return "*" + tt.key(u.Elem())
+	case *types.Named:
+		o := u.Origin().Obj()
+		if o.Pkg() != nil {
+			return o.Pkg().Path() + "." + o.Name()
+		}
+		return o.Name()
+	}
 	return types.TypeString(t, nil)
 }
 
